@@ -4,6 +4,7 @@
 import PowHsm.Spec.C13
 import PowHsm.Generated.Enums
 import PowHsm.Proofs.Emits
+import PowHsm.Proofs.ConformTracks
 namespace PowHsm
 namespace Props.C13
 open Generated
@@ -128,6 +129,164 @@ theorem pubkey_verbatim (path : List Nat) (w : World) (k : Bytes) (h : (getPubli
     subst h
     obtain ⟨rest, h1, h2, _⟩ := sendCommand_ok_inv hr
     exact ⟨rest, h1, h2⟩
+
+open Dongle M Generated Tbl in
+/-- **the blockchain parameters returned are the three fields of the device's answer** (32-byte
+    checkpoint, 36-byte minimum difficulty as the same unsigned number, network byte mapped through
+    the documented names): when the query succeeds the answer carried exactly 69 bytes of data,
+    and one query message was sent -/
+theorem parameters_verbatim (w : World) (p : Params) (h : (getSignerParameters w).val = .ok p) :
+    ∃ r rest name, w.script = .data r :: rest ∧
+      (getSignerParameters w).evs = [.apdu [Dongle.CLA, u8 Command_GET_PARAMETERS]] ∧
+      (r.drop 3).length = 69 ∧ p.checkpoint = (r.drop 3).take 32 ∧
+      p.minDifficulty = Bytes.beVal (((r.drop 3).drop 32).take 36) ∧
+      networks.find? (fun n => n.2 == ((r.drop 3).getD 68 0).toNat) = some (name, ((r.drop 3).getD 68 0).toNat) ∧
+      p.network = name := by
+  unfold getSignerParameters at h ⊢
+  obtain ⟨r, e1, w1, hsend, h1, hev1, _⟩ := bind_ok_inv h
+  obtain ⟨rest, hscript, he1, _⟩ := sendCommand_ok_inv hsend
+  dsimp only at h1 hev1
+  by_cases hlen : ((List.drop 3 r).length != 69) = true
+  · rw [if_pos hlen] at h1; simp [M.throw'] at h1
+  · rw [if_neg hlen] at h1 hev1
+    have hl : (List.drop 3 r).length = 69 := by simpa using hlen
+    cases hf : networks.find? (fun n => n.2 == ((List.drop 3 r).getD 68 0).toNat) with
+    | none => rw [hf] at h1; simp [M.throw'] at h1
+    | some nm =>
+      obtain ⟨name, v⟩ := nm
+      rw [hf] at h1 hev1
+      simp only [pure_apply] at h1 hev1
+      injection h1 with h1
+      have hv : v = ((List.drop 3 r).getD 68 0).toNat := by
+        have := List.find?_some hf
+        simpa using this
+      subst hv
+      refine ⟨r, rest, name, hscript, ?_, hl, ?_, ?_, hf, ?_⟩
+      · rw [hev1, he1]; simp
+      · rw [← h1]
+      · rw [← h1]
+      · rw [← h1]
+
+open Dongle M in
+theorem catchResult_ok_inv {α : Type} {m : M α} {hd : Nat → M α} {w : World} {a : α}
+    (h : (catchResult m hd w).val = .ok a) :
+    ((m w).val = .ok a ∧ (catchResult m hd w).evs = (m w).evs) ∨
+      ∃ sw, (m w).val = .error (.dongleResult sw) ∧ (hd sw (m w).w).val = .ok a := by
+  unfold catchResult M.tryCatchIf at h ⊢
+  cases hr : m w with
+  | mk v e1 w1 =>
+    rw [hr] at h
+    cases v with
+    | ok x => simp only at h ⊢; exact Or.inl ⟨h, trivial⟩
+    | error e =>
+      cases e with
+      | dongleResult sw => simp only [if_true] at h ⊢; exact Or.inr ⟨sw, rfl, h⟩
+      | _ => simp at h
+
+open Dongle M Generated Tbl in
+/-- **a heartbeat reply carries exactly what the device answered**: when a heartbeat is returned,
+    five messages were sent (UD value, signature, message, application hash, public key query — in
+    this order, the first carrying the client's UD value), the device answered each with data, the
+    reported message / tweak / public key are those answers without their 3-byte header, and
+    `r`, `s` are the components of the DER signature in the signature answer -/
+theorem heartbeat_verbatim (cmd : Nat) (ops : List (String × Nat)) (ud : Bytes) (w : World) (hb : Heartbeat)
+    (h : (heartbeatRun cmd ops ud w).val = .ok (some hb)) :
+    let op (n : String) : UInt8 := UInt8.ofNat (dictGet ops n 0)
+    ∃ a sig msg hash pk rest,
+      w.script = .data a :: .data sig :: .data msg :: .data hash :: .data pk :: rest ∧
+      apdus (heartbeatRun cmd ops ud w).evs =
+        [Dongle.CLA :: UInt8.ofNat cmd :: op "UD_VALUE" :: ud, [Dongle.CLA, UInt8.ofNat cmd, op "GET"],
+         [Dongle.CLA, UInt8.ofNat cmd, op "GET_MESSAGE"], [Dongle.CLA, UInt8.ofNat cmd, op "APP_HASH"],
+         [Dongle.CLA, UInt8.ofNat cmd, op "PUBKEY"]] ∧
+      Der.parse (sig.drop 3) = some (hb.r, hb.s) ∧ hb.message = msg.drop 3 ∧ hb.tweak = hash.drop 3 ∧
+      hb.pubKey = pk.drop 3 := by
+  intro op
+  unfold heartbeatRun at h ⊢
+  dsimp only at h ⊢
+  rcases catchResult_ok_inv h with ⟨hbody, hevs⟩ | ⟨sw, _, hnone⟩
+  · rw [hevs]
+    obtain ⟨a, e1, w1, hs1, h1, hev1, _⟩ := bind_ok_inv hbody
+    obtain ⟨rest1, hsc1, he1, hw1⟩ := sendCommand_ok_inv hs1
+    obtain ⟨sig, e2, w2, hs2, h2, hev2, _⟩ := bind_ok_inv h1
+    obtain ⟨rest2, hsc2, he2, hw2⟩ := sendCommand_ok_inv hs2
+    obtain ⟨msg, e3, w3, hs3, h3, hev3, _⟩ := bind_ok_inv h2
+    obtain ⟨rest3, hsc3, he3, hw3⟩ := sendCommand_ok_inv hs3
+    obtain ⟨hash, e4, w4, hs4, h4, hev4, _⟩ := bind_ok_inv h3
+    obtain ⟨rest4, hsc4, he4, hw4⟩ := sendCommand_ok_inv hs4
+    obtain ⟨pk, e5, w5, hs5, h5, hev5, _⟩ := bind_ok_inv h4
+    obtain ⟨rest5, hsc5, he5, hw5⟩ := sendCommand_ok_inv hs5
+    rw [hev1, hev2, hev3, hev4, hev5, he1, he2, he3, he4, he5]
+    cases hder : Der.parse (sig.drop 3) with
+    | none => rw [hder] at h5; simp [M.throw'] at h5
+    | some rs =>
+      obtain ⟨r, s'⟩ := rs
+      rw [hder] at h5
+      simp only [pure_apply] at h5
+      injection h5 with h5
+      injection h5 with h5
+      subst hw1 hw2 hw3 hw4
+      simp only at hsc2 hsc3 hsc4 hsc5
+      refine ⟨a, sig, msg, hash, pk, rest5, ?_, ?_, ?_, ?_, ?_, ?_⟩
+      · rw [hsc1, hsc2, hsc3, hsc4, hsc5]
+      · simp [apdus, op]
+      · rw [← h5]; exact hder
+      · rw [← h5]
+      · rw [← h5]
+      · rw [← h5]
+  · simp at hnone
+
+open Dongle M Generated Tbl in
+/-- **blockchain state: every hash, the total difficulty and the three flags are the device's
+    answers**: when `get_blockchain_state` succeeds, the device answered the seven hash queries
+    (see `state_hashes_exact`), then the difficulty query with an answer echoing the operation —
+    the number reported is the big-endian value of everything after the 3-byte header — then the
+    flags query with exactly three flag bytes, reported in the documented order as booleans -/
+theorem blockchain_state_verbatim (w : World) (st : BcState) (h : (getBlockchainState w).val = .ok st) :
+    ∃ (rs : List Bytes) (d f : Bytes) (rest : List Resp),
+      w.script = rs.map Resp.data ++ .data d :: .data f :: rest ∧ rs.length = hashValues.length ∧
+      st.hashes = List.zipWith (fun p r => (p.1, r.drop 4)) hashValues rs ∧
+      d[2]? = some (u8 GetStateOps_DIFF) ∧ st.totalDifficulty = Bytes.beVal (d.drop 3) ∧
+      f[2]? = some (u8 GetStateOps_FLAGS) ∧ (f.drop 3).length = 3 ∧
+      st.inProgress = (f.getD 3 0 != 0) ∧ st.alreadyValidated = (f.getD 4 0 != 0) ∧
+      st.foundBestBlock = (f.getD 5 0 != 0) := by
+  unfold getBlockchainState at h
+  obtain ⟨hs, e0, w0, hq0, h0, _, _⟩ := bind_ok_inv h
+  obtain ⟨rs, hrs1, hrs2, hrs3, hrs4, _⟩ := state_hashes_exact hashValues w hs (by rw [hq0])
+  have htr := getStateHashes_tracks hashValues w
+  rw [hq0] at hrs3 htr
+  simp only at hrs3 htr
+  rw [hrs3] at htr
+  simp only [List.length_map] at htr
+  obtain ⟨d, e1, w1, hs1, h1, _, _⟩ := bind_ok_inv h0
+  obtain ⟨rest1, hsc1, _, hw1⟩ := sendCommand_ok_inv hs1
+  obtain ⟨op, e2, w2, hidx, h2, _, _⟩ := bind_ok_inv h1
+  obtain ⟨hop, _, hw2⟩ := idx_ok_inv hidx
+  by_cases hne : (op != u8 GetStateOps_DIFF) = true
+  · rw [if_pos hne] at h2; simp [M.throw'] at h2
+  · rw [if_neg hne] at h2
+    have hopd : op = u8 GetStateOps_DIFF := by simpa using hne
+    obtain ⟨f, e3, w3, hs3, h3, _, _⟩ := bind_ok_inv h2
+    obtain ⟨rest3, hsc3, _, hw3⟩ := sendCommand_ok_inv hs3
+    obtain ⟨fop, e4, w4, hidx4, h4, _, _⟩ := bind_ok_inv h3
+    obtain ⟨hfop, _, _⟩ := idx_ok_inv hidx4
+    by_cases hbad : (fop != u8 GetStateOps_FLAGS || (List.drop 3 f).length != 3) = true
+    · rw [if_pos hbad] at h4; simp [M.throw'] at h4
+    · rw [if_neg hbad] at h4
+      simp only [pure_apply] at h4
+      injection h4 with h4
+      simp only [Bool.or_eq_true, bne_iff_ne, ne_eq, not_or, Decidable.not_not] at hbad
+      subst hw2 hw1
+      simp only at hsc3
+      refine ⟨rs, d, f, rest3, ?_, hrs2, ?_, ?_, ?_, ?_, hbad.2, ?_, ?_, ?_⟩
+      · have hsplit := List.take_append_drop hashValues.length w.script
+        rw [← hsplit, hrs1, ← htr, hsc1, hsc3]
+      · rw [← h4]; exact hrs4
+      · rw [hop, hopd]
+      · rw [← h4]
+      · rw [hfop, hbad.1]
+      · rw [← h4]; rfl
+      · rw [← h4]; rfl
+      · rw [← h4]; rfl
 
 end Props.C13
 end PowHsm
